@@ -5,8 +5,8 @@ from drivers import STANDARD
 import c01
 from c09 import RecJob
 
-RULE = ("runs of the three real binaries built with AddressSanitizer + UndefinedBehaviorSanitizer (clang, -fno-sanitize-recover) and of the "
-        "normal build: the cells of the input-class lattice (per option: absent / well-formed / each malformed shape the parsers distinguish - "
+RULE = ("the session corpora of C01-C05, C11, C16, C17 executed by the native harness of the sanitizer build (ASan + UBSan bounds / null / bool / "
+        "enum / integer-divide-by-zero / object-size, no recovery), and runs of the three real binaries of that build: the cells of the input-class lattice (per option: absent / well-formed / each malformed shape the parsers distinguish - "
         "truncated and corrupted transactions, counts beyond the data, out-of-range --select and vout indices, non-hex, odd length, empty strings, "
         "unbalanced brackets, wrong-size hashes / keys / control blocks, empty stdin, over-long flag names, every tf / inline function on "
         "arguments of the wrong type or size, step / rewind / exec / tf command sequences in the REPL), structure-aware mutations of valid spends "
